@@ -4,6 +4,7 @@ import ThriftVerif.Props.C10
 #print axioms Props.C10.fast_write_into_blength
 #print axioms Props.C10.fast_write_is_std
 #print axioms Props.C10.fast_write_decodes
+#print axioms Props.C10.fast_write_eq_std_sorted
 #print axioms Props.C10.fast_read_refines_std
 #print axioms Props.C10.fast_read_eq_std_on_written
 #print axioms Props.C10.fast_read_tolerates_unknown
